@@ -497,7 +497,7 @@ MT_TRUSTED = ["nom semantics table lib/mir/textlayer.py (take, tag, take_until, 
 MT_N = {"quick": 32, "thorough": 48}
 
 
-def mt_gap_no_panic(res, cfgs, seed, N=24, timeout_s=600, width=16, queries=("q_no_panic",)):
+def mt_gap_no_panic(res, cfgs, seed, N=24, timeout_s=600, width=16, queries=("q_no_panic",), hunt=False):
     """the sentence parser on lines far longer than the fully symbolic bound: N symbolic bytes with a run of one payload character
     inserted at a symbolic position.  With 16-bit positions (runs up to 60000) the panic-edge query takes seconds but the grammar
     miters do not finish in 25 min; with 12-bit positions (runs up to 3840) and N = 20 the two grammar miters take 11-12 min each
@@ -520,7 +520,12 @@ def mt_gap_no_panic(res, cfgs, seed, N=24, timeout_s=600, width=16, queries=("q_
             cx = mt.Ctx(res, rel, ref)
             for q in queries:
                 getattr(mt, q)(cx)
-            mt.run_queries(cx, timeout_s=timeout_s)
+            mt.run_queries(cx, timeout_s=timeout_s, hunt=hunt)
+            note = ("long-line model [%s]: %d symbolic bytes + a run of <= %d copies of one payload character (not a digit, not a hex letter) at a symbolic "
+                    "position; queries %s; %s" % (c, N, rel.line.gmax, ", ".join(queries),
+                    "bug hunting only in this tier (budget %d s per query): an undecided query claims nothing" % timeout_s if hunt else "decided (UNSAT) or the run is inconclusive"))
+            if note not in res.assumptions:
+                res.assumptions.append(note)
 
 
 def mt_setup(res, cfgs, tier, seed, N=None):
@@ -559,11 +564,17 @@ def c02(res, tier, seed):
     for cx in cxs:
         mt.q_gate(cx)
         mt.run_queries(cx, timeout_s=500 if tier == "quick" else 2400)
+    if tier == "quick":
+        # long lines (20 symbolic bytes + a run of up to 3840 copies of one payload character): bug hunting only in this tier - the
+        # UNSAT proofs take 8-14 min (thorough tier), a violation is found in seconds
+        mt_gap_no_panic(res, ("std",), seed, N=20, timeout_s=100, width=12, queries=("q_gate",), hunt=True)
     if tier == "thorough":
         mt, cxs = mt_setup(res, ("std",), tier, seed, N=MT_N_NMEA)
         for cx in cxs:
             mt.q_gate(cx)
             mt.run_queries(cx, timeout_s=4500)
+        # long lines: 20 symbolic bytes + a run of up to 3840 copies of one payload character (checksummed ranges far beyond N)
+        mt_gap_no_panic(res, ("std",), seed, N=20, timeout_s=4500, width=12, queries=("q_gate",))
     msq, ql, rels = m_setup(res, ("std", "none") if tier == "quick" else ALL, seed)
     for c, rel in rels.items():
         msq.q_checksum_gate(res, rel, ql)
@@ -575,6 +586,7 @@ def c02(res, tier, seed):
     meta = mt_meta(tier)
     if tier == "thorough":
         meta["bounds"]["line_bytes_std"] = "additionally every byte string of length 0..=%d (the NMEA 0183 maximum sentence length) in the std build" % MT_N_NMEA
+        meta["bounds"]["long_lines_std"] = "additionally lines of 20 symbolic bytes with a run of 0..=3840 copies of one payload character inserted at any position"
     meta["trusted"] = KANI_TRUSTED + meta["trusted"]
     return meta
 
@@ -586,6 +598,8 @@ def c08(res, tier, seed):
         mt.q_postconditions(cx)
         mt.q_no_panic(cx)
         mt.run_queries(cx, timeout_s=500 if tier == "quick" else 2400)
+    if tier == "quick":
+        mt_gap_no_panic(res, ("std",), seed, N=20, timeout_s=100, width=12, queries=("q_shapes",), hunt=True)
     if tier == "thorough":
         mt, cxs = mt_setup(res, ("std",), tier, seed, N=MT_N_NMEA)
         for cx in cxs:
